@@ -19,6 +19,14 @@ package idl
 //@ ghost gpos int
 //@ ghost gname int
 //@ ghost gkw string
+//@ ghost gElem ref
+//@ ghost gDoc string
+//@ ghost gName string
+//@ ghost gType ref
+//@ ghost gMIn ref
+//@ ghost gMOut ref
+//@ ghost gIfaceName string
+//@ ghost gIdlDoc string
 //@ ghost gone int
 //@ ghost gtwo int
 //@ ghost cstart [int]int
@@ -112,7 +120,7 @@ package idl
 //@ func (*parser).readStructType {C05 C06 | safety: C09}
 //@   requires [wf] wf(p)
 //@   decreases 2 * (len(p.input) - p.position)
-//@   modifies p.position, p.lineStart, p.lastComment, gpos, cstart
+//@   modifies p.position, p.lineStart, p.lastComment, gpos, cstart, gElem
 //@   ensures [wf C05 C06 C09] result != nil ==> wf(p)
 //@   ensures [wf1 C05 C06 C09] wf1(p) && p.position >= old(p.position)
 //@   ensures [fresh C05 C06 C09] result != nil ==> fresh(result)
@@ -121,6 +129,7 @@ package idl
 //@   ensures [pure C06 C07] result != nil ==> pureFields(result)
 //@   ensures [enum C06] result != nil && result.Kind == TypeEnum ==> len(result.Fields) >= 1
 //@   ensures [names C05 C06] result != nil ==> (forall j int :: 0 <= j && j < len(result.Fields) ==> result.Fields[j].Name != "")
+//@   assert [field-append C05] at call(append)#1 : arg0 == t.Fields && arg1[0] == field && len(arg1) == 1
 //@   assert [tok-first C05] at call(next)#2 : tokenStart(p)
 //@   assert [tok-field C05] at call(readFieldName)#1 : tokenStart(p)
 //@   assert [tok-colon C05] at call(next)#3 : tokenStart(p)
@@ -141,7 +150,12 @@ package idl
 //@ func (*parser).readType {C05 C06 | safety: C09}
 //@   requires [wf] wf(p)
 //@   decreases 2 * (len(p.input) - p.position) + 1
-//@   modifies p.position, p.lineStart, p.lastComment, gpos, cstart
+//@   modifies p.position, p.lineStart, p.lastComment, gpos, cstart, gElem
+//@   ghostset at call(readType)#1 : gElem = res0
+//@   ghostset at call(readType)#2 : gElem = res0
+//@   ghostset at call(readStructType)#1 : gElem = res0
+//@   ensures [elem-origin C05] result != nil && (result.Kind == TypeMaybe || result.Kind == TypeArray || result.Kind == TypeMap) ==> result.ElementType == gElem
+//@   ensures [struct-origin C05] result != nil && (result.Kind == TypeStruct || result.Kind == TypeEnum) ==> result == gElem
 //@   ensures [wf C05 C06 C09] result != nil ==> wf(p)
 //@   ensures [wf1 C05 C06 C09] wf1(p) && p.position >= old(p.position)
 //@   ensures [fresh C05 C06 C09] result != nil ==> fresh(result)
@@ -170,7 +184,11 @@ package idl
 
 //@ func (*parser).readAlias {C05 C06 | safety: C09}
 //@   requires [wf] wf(p)
-//@   modifies p.position, p.lineStart, p.lastComment, gpos, cstart
+//@   modifies p.position, p.lineStart, p.lastComment, gpos, cstart, gElem, gDoc, gName, gType
+//@   ghostset at call(String)#1 : gDoc = res0
+//@   ghostset at call(readTypeName)#1 : gName = res0
+//@   ghostset at call(readType)#1 : gType = res0
+//@   ensures [content C05] result1 == nil ==> result0.Doc == gDoc && result0.Name == gName && result0.Type == gType
 //@   ensures [wf C05 C06 C09] result1 == nil ==> wf(p) && p.position >= old(p.position) && result0 != nil && fresh(result0)
 //@   ensures [fields C05 C06 C07] result1 == nil ==> result0.Name != "" && result0.Type != nil
 //@   ensures [err C06] result1 != nil ==> result0 == nil
@@ -179,7 +197,12 @@ package idl
 
 //@ func (*parser).readMethod {C05 C06 | safety: C09}
 //@   requires [wf] wf(p)
-//@   modifies p.position, p.lineStart, p.lastComment, gpos, cstart, gone, gtwo
+//@   modifies p.position, p.lineStart, p.lastComment, gpos, cstart, gone, gtwo, gElem, gDoc, gName, gMIn, gMOut
+//@   ghostset at call(String)#1 : gDoc = res0
+//@   ghostset at call(readTypeName)#1 : gName = res0
+//@   ghostset at call(readType)#1 : gMIn = res0
+//@   ghostset at call(readType)#2 : gMOut = res0
+//@   ensures [content C05] result1 == nil ==> result0.Doc == gDoc && result0.Name == gName && result0.In == gMIn && result0.Out == gMOut
 //@   ensures [wf C05 C06 C09] result1 == nil ==> wf(p) && p.position >= old(p.position) && result0 != nil && fresh(result0)
 //@   ensures [fields C05 C06 C07] result1 == nil ==> result0.Name != "" && result0.In != nil && result0.Out != nil
 //@   ensures [arrow C06] result1 == nil ==> gone == 45 && gtwo == 62
@@ -193,7 +216,11 @@ package idl
 
 //@ func (*parser).readError {C05 C06 | safety: C09}
 //@   requires [wf] wf(p)
-//@   modifies p.position, p.lineStart, p.lastComment, gpos, cstart, gname
+//@   modifies p.position, p.lineStart, p.lastComment, gpos, cstart, gname, gElem, gDoc, gName, gType
+//@   ghostset at call(String)#1 : gDoc = res0
+//@   ghostset at call(readTypeName)#1 : gName = res0
+//@   ghostset at call(readType)#1 : gType = res0
+//@   ensures [content C05] result1 == nil ==> result0.Doc == gDoc && result0.Name == gName && result0.Type == gType
 //@   ensures [wf1 C05 C06 C09] result1 == nil ==> wf1(p) && p.position >= old(p.position) && result0 != nil && fresh(result0)
 //@   ensures [wf C05 C06] result1 == nil ==> wf(p)
 //@   ensures [fields C05 C06] result1 == nil ==> result0.Name != ""
@@ -209,7 +236,13 @@ package idl
 
 //@ func (*parser).readIDL {C05 C06 | safety: C09}
 //@   requires [wf] wf(p)
-//@   modifies p.position, p.lineStart, p.lastComment, gpos, cstart, gone, gtwo, gname, gkw
+//@   modifies p.position, p.lineStart, p.lastComment, gpos, cstart, gone, gtwo, gname, gkw, gElem, gDoc, gName, gType, gMIn, gMOut, gIdlDoc, gIfaceName
+//@   ghostset at call(String)#1 : gIdlDoc = res0
+//@   ghostset at call(readInterfaceName)#1 : gIfaceName = res0
+//@   assert [idl-head C05] at call(advance)#2 : idl.Doc == gIdlDoc && idl.Name == gIfaceName
+//@   assert [member-alias C05] at call(append)#2 : arg0 == idl.Members && arg1[0] == boxed(a) && len(arg1) == 1
+//@   assert [member-method C05] at call(append)#4 : arg0 == idl.Members && arg1[0] == boxed(m) && len(arg1) == 1
+//@   assert [member-error C05] at call(append)#6 : arg0 == idl.Members && arg1[0] == boxed(e) && len(arg1) == 1
 //@   ensures [nonnil C05 C06 C09] result1 == nil ==> result0 != nil && fresh(result0)
 //@   ensures [eof C06] result1 == nil ==> p.position >= len(p.input)
 //@   ensures [members C05] result1 == nil ==> len(result0.Members) == len(result0.Aliases) + len(result0.Methods) + len(result0.Errors)
@@ -220,9 +253,9 @@ package idl
 //@   assert [new-alias C06] at mapupdate(members[a.Name])#1 : !has(members, a.Name) && key == a.Name
 //@   assert [new-method C06] at mapupdate(members[m.Name])#1 : !has(members, m.Name) && key == m.Name
 //@   assert [new-error C06] at mapupdate(members[e.Name])#1 : !has(members, e.Name) && key == e.Name
-//@   assert [app-alias C05 C06] at call(append)#1 : arg0 == idl.Aliases
-//@   assert [app-method C05 C06] at call(append)#3 : arg0 == idl.Methods
-//@   assert [app-error C05 C06] at call(append)#5 : arg0 == idl.Errors
+//@   assert [app-alias C05 C06] at call(append)#1 : arg0 == idl.Aliases && arg1[0] == a && len(arg1) == 1
+//@   assert [app-method C05 C06] at call(append)#3 : arg0 == idl.Methods && arg1[0] == m && len(arg1) == 1
+//@   assert [app-error C05 C06] at call(append)#5 : arg0 == idl.Errors && arg1[0] == e && len(arg1) == 1
 //@   loop 1 invariant [wf] wf1(p) && idl != nil
 //@   loop 1 invariant [members C05] len(idl.Members) == len(idl.Aliases) + len(idl.Methods) + len(idl.Errors)
 //@   ghostset at call(readInterfaceName)#1 : gkw = "type"
@@ -234,7 +267,7 @@ package idl
 //@   loop 1 decreases len(p.input) - p.position
 
 //@ func New {C05 C06 | safety: C09}
-//@   modifies gpos, cstart, gone, gtwo, gname, gkw
+//@   modifies gpos, cstart, gone, gtwo, gname, gkw, gElem, gDoc, gName, gType, gMIn, gMOut, gIdlDoc, gIfaceName
 //@   ensures [notree C06] result1 != nil ==> result0 == nil
 //@   ensures [desc C05] result1 == nil ==> result0 != nil && result0.Description == description
 //@   ensures [methods C06] result1 == nil ==> len(result0.Methods) >= 1
